@@ -161,6 +161,8 @@ def plan(chk):
             add(shape="boundary", dim=dim, val=0xFFFF)
             add(shape="boundary", dim=dim, val=0x10000)
         add(shape="boundary", dim="spklen", val=0x10001)
+        add(shape="boundary", dim="nout", val=0x10001)      # output index 65536 (beyond u16) is printed
+        add(shape="boundary", dim="nin", val=0x10001)
     for coin in COIN_NAMES:
         for verify in (False, True):
             add(shape="segwit", coin=coin, verify=verify)
